@@ -2042,17 +2042,18 @@ def c14(tier, replay=None):
     report = Report('C14', tier)
     # the design: with sorted set iteration the lowering is a function; without it
     # the multi-entry sets are exactly where two lowerings can differ
-    for sorted_iter, expect in (('TRUE', True), ('FALSE', False)):
-        cfg = write_cfg('Preview_%s.cfg' % sorted_iter,
-                        'SPECIFICATION Spec\nCONSTANTS\n  SortedIteration = %s\n'
+    for sorted_iter, isolated, expect in (('TRUE', 'TRUE', True), ('FALSE', 'TRUE', False),
+                                          ('TRUE', 'FALSE', False)):
+        cfg = write_cfg('Preview_%s_%s.cfg' % (sorted_iter, isolated),
+                        'SPECIFICATION Spec\nCONSTANTS\n  SortedIteration = %s\n  CloneIsolated = %s\n'
                         'INVARIANT PreviewEqualsExecution\nINVARIANT LoweringDeterministic\n'
-                        'INVARIANT NondeterminismOnlyFromSets\n' % sorted_iter)
+                        'INVARIANT NondeterminismOnlyFromSets\n' % (sorted_iter, isolated))
         res = run_tlc('Preview', cfg, workers=4, timeout=300, allow_violation=not expect)
         if expect:
-            require_ok(res, 'Preview (SortedIteration=TRUE)')
+            require_ok(res, 'Preview (as repaired)')
         elif not res.invariant_violated:
-            machinery_failure('Preview.tla with unsorted iteration should admit two lowerings')
-        report.add_tlc('Preview SortedIteration=%s' % sorted_iter, res.stats())
+            machinery_failure('Preview.tla without sorted iteration / clone isolation should fail')
+        report.add_tlc('Preview SortedIteration=%s CloneIsolated=%s' % (sorted_iter, isolated), res.stats())
     seeds = ['0', '1', '2', '3'] if tier == 'quick' else ['0', '1', '2', '3', '4', '5', '7', '11']
     modes = ('fresh',) if tier == 'quick' else ('fresh', 'stepwise')
     scs = P.scenarios(tier)
@@ -2159,7 +2160,7 @@ def c15(tier, replay=None):
     from .engines import purge as P
     from .tlc import run_tlc, require_ok, write_cfg
     report = Report('C15', tier)
-    maxops = 3 if tier == 'quick' else 4
+    maxops = 4 if tier == 'quick' else 5
     cfg = write_cfg('MC_Purge.cfg', '''
 SPECIFICATION Spec
 CONSTANTS
@@ -2186,13 +2187,17 @@ PROPERTY SigMatchesAfterPurge
     full = [r for r in recs if len(r['hist']) == maxops
             and any(op['op'] != 'evolve' for op in r['hist'])]
     rng.shuffle(full)
-    limit = 60 if tier == 'quick' else 600
+    limit = 100 if tier == 'quick' else 900
+    # stratify by the SHAPE of the history (operation kinds, purge flags, whether the operations
+    # concern one app), so that rare shapes are replayed as well
     by_feat = {}
     for r in full:
-        by_feat.setdefault(tuple(sorted(r['feats'])), []).append(r)
+        shape = tuple((op['op'], op.get('purge')) for op in r['hist'])
+        one_app = len(set(op.get('app') for op in r['hist'] if op.get('app'))) == 1
+        by_feat.setdefault((shape, one_app), []).append(r)
     chosen = []
     while len(chosen) < limit and any(by_feat.values()):
-        for k in sorted(by_feat):
+        for k in sorted(by_feat, key=repr):
             if by_feat[k] and len(chosen) < limit:
                 chosen.append(by_feat[k].pop())
     with ThreadPoolExecutor(16) as ex:
